@@ -341,6 +341,10 @@ def get_model_parser(top_rule, comments_model, **kwargs):
             # True while this parser has the user classes instrumented
             self._user_attr_methods_replaced = False
 
+            # User class instances allocated by this parser whose attributes
+            # are still kept in the per-object storage of their class
+            self._user_class_allocated = []
+
         def clone(self):
             """
             Responsibility: create a clone in order to parse a separate file.
@@ -359,6 +363,7 @@ def get_model_parser(top_rule, comments_model, **kwargs):
             the_clone._instances = {}
             the_clone._crossrefs = []
             the_clone._user_attr_methods_replaced = False
+            the_clone._user_class_allocated = []
 
             # TODO self.memoization = memoization
             the_clone.comments = []
@@ -450,6 +455,7 @@ def get_model_parser(top_rule, comments_model, **kwargs):
             except:  # noqa
                 # Restore of user classes replaced attr methods
                 self._restore_user_attr_methods()
+                self._discard_user_obj_attrs()
                 raise
 
             finally:
@@ -542,6 +548,16 @@ def get_model_parser(top_rule, comments_model, **kwargs):
                                 else:
                                     delattr(user_class, real_name)
                                 delattr(user_class, cached_name)
+
+        def _discard_user_obj_attrs(self):
+            """
+            Drop the per-object attribute storage of the user class instances
+            allocated by this parser. Used when a load fails (the objects
+            will never be initialized).
+            """
+            for obj in self._user_class_allocated:
+                type(obj)._tx_obj_attrs.pop(id(obj), None)
+            self._user_class_allocated = []
 
     return TextXModelParser(**kwargs)
 
@@ -664,6 +680,7 @@ def parse_tree_to_objgraph(
                 # So that nested object get correct reference
                 inst = user_class.__new__(user_class)
                 user_class._tx_obj_attrs[id(inst)] = {}
+                parser._user_class_allocated.append(inst)
                 is_user = True
 
             else:
@@ -1125,7 +1142,11 @@ def _restore_user_classes(models):
     """
     for m in models:
         if hasattr(m, "_tx_parser"):
-            m._tx_parser._restore_user_attr_methods()
+            # For a user class model `_tx_parser` is not reachable anymore
+            # once the attr methods are restored
+            the_parser = m._tx_parser
+            the_parser._restore_user_attr_methods()
+            the_parser._discard_user_obj_attrs()
 
 
 class ReferenceResolver:
